@@ -197,7 +197,8 @@ func newConcWorld(p *Pkg, pl *ConcPayload, free bool) (*concWorld, error) {
 		args := make([]reflect.Value, ft.NumIn())
 		for i := range args {
 			a := reflect.New(ft.In(i)).Elem()
-			rc := io.NopCloser(bytes.NewReader(body))
+			// a plain reader (no WriteTo), like an upstream response body or a pipe
+			rc := io.NopCloser(plainReader{bytes.NewReader(body)})
 			if reflect.TypeOf(rc).Implements(ft.In(i)) || ft.In(i).Kind() == reflect.Interface {
 				a.Set(reflect.ValueOf(rc))
 			}
@@ -505,3 +506,8 @@ func c20Free(p *Pkg, pl *ConcPayload, res *Result) {
 		res.Violate(Violation{Attrs: map[string]string{"kind": "isolation-free-running"}, Observed: pr})
 	}
 }
+
+// plainReader hides every optional interface of the wrapped reader (WriterTo, Seeker, ...).
+type plainReader struct{ r io.Reader }
+
+func (p plainReader) Read(b []byte) (int, error) { return p.r.Read(b) }
